@@ -135,6 +135,11 @@ pub struct PStep {
 	pub lag: bool,
 	pub conn: Conn,
 	pub disc: Disc,
+	/// after the trace event served by this step the observed node is stopped, its manager and monitors are
+	/// written, read back and installed as they are (nothing is re-told about the chain), and its peers reconnect:
+	/// the chain client carries on with whatever style the next step names ("mixes across restarts")
+	#[serde(default)]
+	pub reload: bool,
 }
 
 #[derive(Clone, Debug, Serialize, Deserialize)]
@@ -146,7 +151,7 @@ pub struct Plan {
 }
 
 pub fn plain_plan() -> Plan {
-	Plan { final_only: false, steps: vec![PStep { lag: false, conn: Conn::Listen { filtered: false, mgr_first: false }, disc: Disc::ForkPoint { chunks: 1, full_locator: false, mgr_first: false } }] }
+	Plan { final_only: false, steps: vec![PStep { lag: false, conn: Conn::Listen { filtered: false, mgr_first: false }, disc: Disc::ForkPoint { chunks: 1, full_locator: false, mgr_first: false }, reload: false }] }
 }
 
 // -------------------------------------------------------------------------------------------------
@@ -240,10 +245,26 @@ pub struct Snap {
 	pub pair_world: bool,
 	/// a channel transaction with >= ANTI_REORG_DELAY confirmations was later reorganised out in this replica
 	pub burial_reorg: bool,
+	/// the observed node was reloaded from its own images at least once in this replica
+	pub reloaded: bool,
 }
 
 /// Compare the conclusions of two replicas at a common tip. Returns the name of the first differing view.
 pub fn compare(a: &Snap, b: &Snap) -> Result<&'static str, (String, String)> {
+	if a.reloaded || b.reloaded {
+		// A restarted node may report an event again (a claim replayed from a monitor, a closure noticed twice): the
+		// resolutions are compared as sets when one of the replicas was reloaded
+		let norm = |s: &Snap| {
+			let mut s = s.clone();
+			s.reloaded = false;
+			for v in [&mut s.htlc, &mut s.closed, &mut s.spendable] {
+				v.sort();
+				v.dedup();
+			}
+			s
+		};
+		return compare(&norm(a), &norm(b));
+	}
 	macro_rules! cmp {
 		($f:ident, $name:expr) => {
 			if a.$f != b.$f {
@@ -720,6 +741,7 @@ pub struct Runner {
 	all_hashes: HashSet<[u8; 32]>,
 	expiries: Vec<u32>,
 	salt: u32,
+	reloads: u32,
 	/// channels O knew to be closed before the chain script started
 	closed_offchain: HashSet<ChannelId>,
 	pub prof: BTreeMap<&'static str, std::time::Duration>,
@@ -791,6 +813,7 @@ impl Runner {
 			all_hashes,
 			expiries,
 			salt: 1000,
+			reloads: 0,
 			closed_offchain: HashSet::new(),
 			prof: BTreeMap::new(),
 		};
@@ -1441,6 +1464,10 @@ impl Runner {
 		*self.prof.entry("2-sync-o").or_default() += t1.elapsed();
 		let t2 = std::time::Instant::now();
 		self.quiesce()?;
+		if ps.reload && !last {
+			self.reload_o()?;
+			self.quiesce()?;
+		}
 		*self.prof.entry("3-quiesce").or_default() += t2.elapsed();
 		let _t3 = std::time::Instant::now();
 		if checkpoint || last {
@@ -1455,6 +1482,29 @@ impl Runner {
 		}
 		*self.prof.entry("4-snapshot").or_default() += _t3.elapsed();
 		Ok(())
+	}
+
+	/// Stop O, write its manager and monitors, read them back and install them without telling them anything about
+	/// the chain; the peers it was connected to reconnect.
+	fn reload_o(&mut self) -> Result<(), Failure> {
+		let o = self.o;
+		set_active(true);
+		let r = self.sim.reload_live(o);
+		set_active(false);
+		let peers = match r {
+			Ok(p) => p,
+			Err(e) => return Err(Failure::new("reload", format!("the observed node could not be reloaded from the images it had just written: {}", e)).with_key("reload/read-failed")),
+		};
+		self.reloads += 1;
+		self.out.modes.insert("reload".into());
+		self.say(format!("  RELOAD of the observed node (manager + {} monitors written and read back), reconnecting {:?}", self.sim.w.nodes[o].chain_monitor.chain_monitor.list_monitors().len(), peers));
+		for j in peers {
+			self.sim.reconnect(o, j);
+		}
+		set_active(true);
+		let r = self.after_o_call();
+		set_active(false);
+		r
 	}
 
 	/// the set of outputs O is currently trying to claim: ask the chain monitor to rebroadcast its pending claims
@@ -1602,6 +1652,7 @@ impl Runner {
 			s.know.push(format!("told-height {}", self.max_height_told));
 			self.out.labels.insert("tip-below-highest-told-height".into());
 		}
+		s.reloaded = self.reloads > 0;
 		s.burial_reorg = self.unburied_now();
 		if s.burial_reorg {
 			self.out.labels.insert("reorg-unburies-buried-tx".into());
